@@ -48,15 +48,33 @@ struct State {
 };
 struct Snap {
     State st; long long deadline = 0, written_at = 0; bool alive = true, server = false;
+    bool boundary = false;        // written by a save that carried a key / value at the edge of what the packed format can hold
 };
 
 inline std::string show_state(State const &s) {
     std::string r = "{";
-    for (auto &kv : s.data) r += kv.first + "=" + vr::show(kv.second.v, 24) + (kv.second.exp ? "(exposed)" : "") + " ";
+    for (auto &kv : s.data) r += vr::show(kv.first, 32) + (kv.first.size() > 32 ? "[" + std::to_string(kv.first.size()) + "B]" : "") + "=" + vr::show(kv.second.v, 24) + (kv.second.exp ? "(exposed)" : "") + " ";
     if (s.has_age) r += "age=" + std::to_string(s.age) + " ";
     if (s.has_how) r += "how=" + std::to_string(s.how) + " ";
     if (s.has_srv) r += "on_server=" + std::to_string((int)s.srv) + " ";
     return r + "}";
+}
+
+// ---- limits of the packed entry header (10 bit key size, 21 bit value size), known to the model from the wire format only ----
+static const size_t KEY_LIMIT = 1024, VALUE_LIMIT = 2u * 1024 * 1024;     // sizes >= these cannot be represented
+// one entry in the layout save_data() uses: little-endian 32 bit word = key size | exposed << 10 | value size << 11, key, value
+inline std::string packed_record(std::string const &k, bool exposed, std::string const &v) {
+    uint32_t h = (uint32_t)k.size() | (exposed ? 1u << 10 : 0u) | ((uint32_t)v.size() << 11);
+    std::string r((char const *)&h, 4); return r + k + v;
+}
+// n bytes that are themselves a sequence of well-formed entries (user=root, _t=7, B=evil exposed, filler): what a loader sees
+// if a header that wrapped to size 0 makes it re-parse key / value bytes as entries
+inline std::string adversarial_bytes(size_t n) {
+    std::string r = packed_record("user", false, "root") + packed_record("_t", false, "7") + packed_record("B", true, "evil") + packed_record("a", false, "mallory");
+    if (n < r.size() + 5) return std::string(n, 'q');
+    size_t fill = n - r.size() - 5;
+    if (fill >= VALUE_LIMIT) return std::string(n, 'q');
+    return r + packed_record("f", false, std::string(fill, 'F'));
 }
 
 inline bool is_hex32(std::string const &s) {
